@@ -39,25 +39,45 @@ def _drive_scc(g, order):
         return {'kind': 'scc', 'g': g, 'order': list(order), 'out': 'raise:' + type(e).__name__, 'comps': []}
 
 
+def _nt_case(stage, ng, keys):
+    return {'kind': 'nt', 'g': {'els': stage['els'], 'rules': [{'lhs': r['lhs'], 'edges': [{'lab': e['lab']} for e in r['edges']]}
+                                                           for r in stage['rules']]},
+            'verts': [x.name for x in ng], 'edges': [[x.name, y.name] for x in ng for y in ng[x]],
+            'keys': keys, 'out': 'ok'}
+
+
 def _drive_nt(a, with_keys):
+    """nonterminal_graph observed after EVERY step of the construction history of the grammar
+    (a query between mutations must see the mutation), then keys of sum_products at the end."""
     import fggs
     from fggs.utils import nonterminal_graph
-    case = {'kind': 'nt', 'g': {'els': a['els'], 'rules': [{'lhs': r['lhs'], 'edges': [{'lab': e['lab']} for e in r['edges']]}
-                                                           for r in a['rules']]},
-            'verts': [], 'edges': [], 'keys': ['-'], 'out': 'ok'}
+    cases = []
+
+    def on_step(g, stage):
+        try:
+            cases.append(_nt_case(stage, nonterminal_graph(g), ['-']))
+        except Exception as e:  # noqa
+            c = _nt_case(stage, {}, ['-'])
+            c['out'] = 'raise:' + type(e).__name__
+            cases.append(c)
     try:
-        g, _ = AG.build_fgg(a, 'bool')
-        ng = nonterminal_graph(g)
-        case['verts'] = [x.name for x in ng]
-        case['edges'] = [[x.name, y.name] for x in ng for y in ng[x]]
-        if with_keys:
+        AG.build_incremental(a, on_step)
+    except Exception as e:  # noqa
+        raise MachineryFailure(f'incremental construction failed: {e!r}')
+    if with_keys:
+        full = dict(a)
+        case = _nt_case(full, {}, ['-'])
+        try:
+            g, _ = AG.build_fgg(a, 'bool')
+            ng = nonterminal_graph(g)
             with warnings.catch_warnings():
                 warnings.simplefilter('ignore')
                 sp = fggs.sum_products(g, semiring=fggs.BoolSemiring())
-            case['keys'] = [k.name for k in sp if k.is_nonterminal]
-    except Exception as e:  # noqa
-        case['out'] = 'raise:' + type(e).__name__
-    return case
+            case = _nt_case(full, ng, [k.name for k in sp if k.is_nonterminal])
+        except Exception as e:  # noqa
+            case['out'] = 'raise:' + type(e).__name__
+        cases.append(case)
+    return cases
 
 
 def _cases(tier, seed, work, o: Outcome):
@@ -87,11 +107,11 @@ def _cases(tier, seed, work, o: Outcome):
         order = list(range(1, n + 1))
         rng.shuffle(order)
         cases.append(_drive_scc({'n': n, 'adj': adj}, order))
-    nnt = 200 if tier == 'quick' else 2000
+    nnt = 100 if tier == 'quick' else 1500
     for i in range(nnt):
         a = AG.gen_ag(rng, n_nts=(1, 4), recursion='any', max_edges=3, max_nodes=2, p_norules=0.3,
                       weights='small', allow_unused_terms=True)
-        cases.append(_drive_nt(a, with_keys=(i % 2 == 0)))
+        cases.extend(_drive_nt(a, with_keys=(i % 2 == 0)))
     return cases
 
 
